@@ -1,0 +1,98 @@
+//go:build verif && vectors
+// +build verif,vectors
+
+package zap
+
+import (
+	"fmt"
+	"math"
+	"sort"
+	"strings"
+	"time"
+
+	faiss "github.com/blevesearch/go-faiss"
+	segment "github.com/blevesearch/scorch_segment_api/v2"
+)
+
+func verifVecCache(s segment.Segment) *vectorIndexCache {
+	switch x := s.(type) {
+	case *Segment:
+		return x.vecIndexCache
+	case *SegmentBase:
+		return x.vecIndexCache
+	}
+	return nil
+}
+
+// VerifVecCacheCleanup runs one expiry pass of the segment's vector index cache
+// synchronously (what the monitor goroutine does on every tick) and reports
+// whether the cache is empty afterwards.
+func VerifVecCacheCleanup(s segment.Segment) bool {
+	vc := verifVecCache(s)
+	if vc == nil {
+		return true
+	}
+	return vc.cleanup()
+}
+
+// VerifSetVecCacheMonitorFreq sets the period of the cache's monitor goroutine
+// (for monitors started afterwards) and returns the previous value.
+func VerifSetVecCacheMonitorFreq(d time.Duration) time.Duration {
+	old := monitorFreq
+	monitorFreq = d
+	return old
+}
+
+// VerifVecCacheState renders the private state of the segment's vector index
+// cache canonically: per cached field its reference count, hit tracker, the
+// documents its id->doc map covers and whether the doc->ids map is present. It
+// takes no lock: the harness calls it only while no other goroutine runs.
+func VerifVecCacheState(s segment.Segment) string {
+	vc := verifVecCache(s)
+	if vc == nil {
+		return "nocache"
+	}
+	if vc.cache == nil {
+		return "cleared"
+	}
+	var fields []int
+	for f := range vc.cache {
+		fields = append(fields, int(f))
+	}
+	sort.Ints(fields)
+	var b strings.Builder
+	for _, f := range fields {
+		ce := vc.cache[uint16(f)]
+		docs := map[uint32]int{}
+		for _, d := range ce.vecDocIDMap {
+			docs[d]++
+		}
+		var ds []int
+		for d := range docs {
+			ds = append(ds, int(d))
+		}
+		sort.Ints(ds)
+		fmt.Fprintf(&b, "[field %d refs=%d avg=%x sample=%d docs=%v docmap=%v index=%v]", f, ce.refs,
+			math.Float64bits(ce.tracker.avg), ce.tracker.sample, ds, ce.docVecIDMap != nil, ce.index != nil)
+	}
+	return b.String()
+}
+
+// VerifVecCacheIndex returns the native index cached for a field (nil if none).
+func VerifVecCacheIndex(s segment.Segment, field string) *faiss.IndexImpl {
+	vc := verifVecCache(s)
+	if vc == nil || vc.cache == nil {
+		return nil
+	}
+	var sb *SegmentBase
+	switch x := s.(type) {
+	case *Segment:
+		sb = &x.SegmentBase
+	case *SegmentBase:
+		sb = x
+	}
+	if ce := vc.cache[sb.fieldsMap[field]]; ce != nil {
+		return ce.index
+	}
+	return nil
+}
